@@ -39,7 +39,7 @@ func boundPresence(r *core.Run) {
 	}
 	info := pk.TypesInfo
 	n := 0
-	ast.Inspect(fd.Body, func(nd ast.Node) bool {
+	ast.Inspect(core.TreeBody(pk, fd), func(nd ast.Node) bool {
 		outer, ok := nd.(*ast.IfStmt)
 		if !ok || len(outer.Body.List) != 1 {
 			return true
@@ -66,7 +66,7 @@ func boundPresence(r *core.Run) {
 				if id, ok := core.Unparen(sel.X).(*ast.Ident); ok {
 					if obj := info.Uses[id]; obj != nil {
 						defs, rhs := 0, ""
-						ast.Inspect(fd.Body, func(x ast.Node) bool {
+						ast.Inspect(core.TreeBody(pk, fd), func(x ast.Node) bool {
 							if as, ok := x.(*ast.AssignStmt); ok {
 								for i, l := range as.Lhs {
 									if li, ok := l.(*ast.Ident); ok && (info.Defs[li] == obj || info.Uses[li] == obj) {
@@ -79,9 +79,13 @@ func boundPresence(r *core.Run) {
 							}
 							return true
 						})
+						isRulesType := strings.HasSuffix(core.TypeStr(info.TypeOf(sel.X)), "IntegerField_Rules")
 						switch {
 						case defs == 1 && strings.HasSuffix(rhs, ".Rules"):
 							tested = rhs + "." + sel.Sel.Name
+						case defs == 0 && isRulesType:
+							// a parameter of the rules type: the helper is handed the declared rules
+							tested = id.Name + ".Rules." + sel.Sel.Name
 						case defs > 1:
 							aliasWhy = fmt.Sprintf(" (%s is assigned %d times: the rules the bounds are read from are not the declared ones on every path)", id.Name, defs)
 						}
@@ -111,7 +115,7 @@ func requiredPropagation(r *core.Run) {
 	}
 	info := pk.TypesInfo
 	initOK, pkOK, storeOK, setOK := false, false, false, false
-	ast.Inspect(fd.Body, func(n ast.Node) bool {
+	ast.Inspect(core.TreeBody(pk, fd, "buildField"), func(n ast.Node) bool {
 		switch x := n.(type) {
 		case *ast.AssignStmt:
 			if len(x.Lhs) == 1 && core.ExprStr(x.Lhs[0]) == "required" {
@@ -178,7 +182,7 @@ func ruleConstants(r *core.Run) {
 		"validate.BoolRules.Const":         ".Rules.Const",
 	}
 	seen := map[string]bool{}
-	ast.Inspect(fd.Body, func(n ast.Node) bool {
+	ast.Inspect(core.TreeBody(pk, fd), func(n ast.Node) bool {
 		cl, ok := n.(*ast.CompositeLit)
 		if !ok {
 			return true
@@ -212,7 +216,7 @@ func ruleConstants(r *core.Run) {
 		}
 	}
 	// key patterns
-	ast.Inspect(fd.Body, func(n ast.Node) bool {
+	ast.Inspect(core.TreeBody(pk, fd), func(n ast.Node) bool {
 		as, ok := n.(*ast.AssignStmt)
 		if !ok || len(as.Lhs) != 1 || !strings.HasSuffix(core.ExprStr(as.Lhs[0]), "stringRules.Pattern") {
 			return true
@@ -250,10 +254,11 @@ func arrayItems(r *core.Run) {
 	info := pk.TypesInfo
 	var itemsPos token.Pos
 	copies := map[string]string{}
+	copyTypes := map[string]string{}
 	elemSrc := map[string]string{} // "RepeatedRules.Items" -> source expr
 	elemPos := map[string]token.Pos{}
 	want := map[string]string{"RepeatedRules": "Items", "MapRules": "Values"}
-	ast.Inspect(fd.Body, func(n ast.Node) bool {
+	ast.Inspect(core.TreeBody(pk, fd, "buildField"), func(n ast.Node) bool {
 		switch x := n.(type) {
 		case *ast.CompositeLit:
 			ts := core.TypeStr(info.TypeOf(x))
@@ -283,6 +288,10 @@ func arrayItems(r *core.Run) {
 					}
 					if strings.HasSuffix(ts, "validate.RepeatedRules") {
 						copies[sel.Sel.Name] = core.ExprStr(x.Rhs[0])
+						if rs, ok := core.Unparen(x.Rhs[0]).(*ast.SelectorExpr); ok {
+							t := core.TypeStr(info.TypeOf(rs.X))
+							copyTypes[sel.Sel.Name] = t[strings.LastIndex(t, ".")+1:]
+						}
 					}
 				}
 			}
@@ -293,7 +302,7 @@ func arrayItems(r *core.Run) {
 		o := r.Add("R-FLOW/items", "j5convert.buildProperty | "+k, elemPos[k], "item constraints of a container field")
 		src := elemSrc[k]
 		okSrc := false
-		ast.Inspect(fd.Body, func(n ast.Node) bool {
+		ast.Inspect(core.TreeBody(pk, fd, "buildField"), func(n ast.Node) bool {
 			if as, ok := n.(*ast.AssignStmt); ok && len(as.Lhs) == 1 && src != "" && core.ExprStr(as.Lhs[0]) == src {
 				rs := core.ExprStr(as.Rhs[0])
 				if strings.Contains(rs, "proto.GetExtension(") && strings.Contains(rs, ".Options, validate.E_Field)") {
@@ -311,9 +320,10 @@ func arrayItems(r *core.Run) {
 			o.Fail("%s is %q, not the constraints built for the item type", k, src)
 		}
 	}
-	for dst, src := range map[string]string{"MinItems": "st.Array.Rules.MinItems", "MaxItems": "st.Array.Rules.MaxItems", "Unique": "st.Array.Rules.UniqueItems"} {
+	for dst, src := range map[string]string{"MinItems": "Rules.MinItems", "MaxItems": "Rules.MaxItems", "Unique": "Rules.UniqueItems"} {
 		o := r.Add("R-FLOW/items", "j5convert.buildProperty | repeated."+dst, itemsPos, "repeated."+dst)
-		if copies[dst] == src {
+		// the source is the array rules' field of that name, however the array schema is reached
+		if strings.HasSuffix(copies[dst], "."+src) && copyTypes[dst] == "ArrayField_Rules" {
 			o.Auto("← %s", src)
 		} else {
 			o.Fail("repeated.%s is fed from %q, expected %s", dst, copies[dst], src)
@@ -329,7 +339,7 @@ func boundNarrowing(r *core.Run) {
 		return
 	}
 	info := pk.TypesInfo
-	ast.Inspect(fd.Body, func(n ast.Node) bool {
+	ast.Inspect(core.TreeBody(pk, fd), func(n ast.Node) bool {
 		kv, ok := n.(*ast.KeyValueExpr)
 		if !ok {
 			return true
